@@ -46,6 +46,7 @@ prop(
           "Ok and the histogram was compared"),
     assumptions=["BK=BA8, V=BA3, 256 buckets (the production instantiation); noise (DpMechanism) off - covered by C12",
                  "non-completion is decided by quiescence under tokio's paused clock (60 virtual seconds), not by wall time"],
+    builds={"quick": ["b1"], "thorough": ["b1", "b3"]},
     shards={"quick": 16, "thorough": 16},
     min_evaluations={"quick": 60, "thorough": 600},
     must_see=[("histogram_equal", 30), ("stages_logged", 4)],
@@ -257,4 +258,140 @@ prop(
               ("held_err_upstream", 100_000), ("held_err_trailing_partial_data", 100_000), ("held_err_invalid_record", 100_000),
               ("held_all_records", 100_000), ("held_rechunked", 10_000), ("held_unpack", 500), ("held_slice_chunks", 500),
               ("held_stream_chunks", 500), ("held_flatten_err", 500), ("held_fixed_length", 300)],
+)
+
+prop(
+    "C08",
+    level="exploration",
+    rule=("exhaustive part: every element / ordered pair of Fp31, Gf2, Boolean, Gf3Bit, Gf8Bit, Gf9Bit (add, sub, mul, neg, assign forms, "
+          "commutativity, identities, exactly-one-inverse, no zero divisor, canonical value + serialisation), every ordered triple where |F| <= 32 "
+          "(associativity, distributivity), every non-zero element of Gf20Bit (a * a^(2^20-2) = 1, i.e. inverse by power); sampled part: boundary x boundary pairs "
+          "({0,1,2,3,|F|-1..|F|-3,|F|/2,2^k,2^k+-1,(p+-1)/2, polynomial tail}) and seeded random triples of Gf20Bit/Gf32Bit/Gf40Bit/Fp32BitPrime/"
+          "Fp61BitPrime/Fp25519 against the harness' own reference (schoolbook carry-less multiply reduced by the exported POLYNOMIAL, u128 % PRIME, "
+          "own 256-bit arithmetic mod l), conversions of unreduced integers, run-time certificates of the exported constants (Rabin irreducibility, "
+          "deterministic Miller-Rabin, DZKP constants), accumulator sequences (8 operand patterns x 16 lengths around the 64-product reduce interval, every "
+          "prefix observed), batch_invert, 17 Lagrange table shapes vs direct interpolation, AdditiveShare/StdArray/BAxx vector ops vs element-wise "
+          "plain ops; a case is distinct by (field, operand tuple) / (field, pattern, length, initial value) / (field, N, M, trial) / (container, width, case) "
+          "and non-trivial when the operation under test was executed and decided by the oracle; thorough additionally repeats Galois multiplication "
+          "in a build with -Ctarget-feature=+pclmulqdq"),
+    assumptions=["the harness' reference arithmetic is correct (self-tested against known irreducible/reducible polynomials, primes/composites, "
+                 "Horner evaluation, primality of l)",
+                 "Fp25519 has no exported modulus constant; its reference modulus is the documented group order l = 2^252 + 27742317777372353535851937790883648493",
+                 "batch_invert / invert on a zero element are only required to be loud (panic), as documented"],
+    builds={"quick": ["b1"], "thorough": ["b1", "b6"]},
+    shards={"quick": 8, "thorough": 16},
+    min_evaluations={"quick": 4_000_000, "thorough": 8_000_000},
+    must_see=[("exhaustive_pairs_Gf9Bit", 262144), ("exhaustive_pairs_Gf8Bit", 65536), ("exhaustive_pairs_Fp31", 961),
+              ("exhaustive_pairs_Gf3Bit", 64), ("exhaustive_pairs_Gf2", 4), ("exhaustive_pairs_Boolean", 4),
+              ("exhaustive_triples_Fp31", 29791), ("exhaustive_triples_Gf3Bit", 512), ("exhaustive_triples_Gf2", 8), ("exhaustive_triples_Boolean", 8),
+              ("gf20_elements_checked", 1048575), ("moduli", 11), ("big_fields", 5), ("dzkp_constants_checked", 1),
+              ("accumulator_lengths", 16), ("accumulator_sequences", 500), ("lagrange_configs", 17), ("lagrange_inputs", 8),
+              ("batch_invert_arrays", 300), ("share_types", 21), ("array_types", 21), ("boundary_pairs_Fp25519", 3000),
+              ("unreduced_conversions", 2000)],
+)
+
+prop(
+    "C09",
+    level="exploration",
+    rule=("cases = (a) every byte string of every Serializable type of <= 2 bytes (Fp31, Boolean, Gf2/3/8/9Bit, BA3..BA16, their "
+          "AdditiveShare / StdArray<_,1> wrappers), all 2^24 strings of BA20 / Gf20Bit / StdArray<BA20,1> in the thorough tier (quick: "
+          "every top byte x 64 low parts); (b) for the larger primitives and composites (Fp32BitPrime, Fp61BitPrime, Fp25519, RP25519, "
+          "BA32..BA256, Gf32Bit, Gf40Bit, shares, StdArray<_,16|32|64|256>, proof / hash arrays, Seed, UniqueTag, PublicKey, "
+          "PrfHybridReport, malicious shares): type-specific edge strings, their single-bit neighbourhood, seeded arbitrary and seeded "
+          "canonical strings, and values built through truncate_from / rng / ZERO; (c) plaintext impression / conversion reports: "
+          "generated reports x every bit flip (first cases) / seeded flips x truncations of the info tail x 1..3 byte extensions x "
+          "garbage; Vec<T>::to_bytes for 8 element types x 6 lengths; (d) every TransposeFrom impl of transpose.rs (60 incl. the Vec / "
+          "BitDecomposed shims) x patterns {all-zero, all-one, left plane only, a single bit at every position (<= 1024 cells) or at "
+          "block-boundary positions, row+column, diagonals, seeded random}; (e) BooleanArrayWriter/Reader layouts, join/split through "
+          "Shuffleable for all 2^3 values x boundary keys, BA<->BitDecomposed, AdditiveShare<BA_N><->AdditiveShare<Boolean,N>; "
+          "(f) QueryConfig for all combinations of 48 epsilon values x 8 max_breakdown_key x 4 with_dp x 2 plaintext flags and all "
+          "query types x field types x 6 sizes through 4 routes (HTTP create, HTTP prepare, JSON, PrepareQuery JSON) plus hand-written "
+          "query strings. A case is distinct by (type, last byte, verdict) / (type, generator, index class, verdict) / (report type, "
+          "mutation, length, oracle verdict) / (impl, pattern) / (layout, value class) / (route, field values), and non-trivial when "
+          "the (de)serialiser or kernel was actually invoked and the independent oracle decided it"),
+    assumptions=[
+        "buffers handed to Serializable::deserialize have exactly T::Size bytes (enforced by the type system in production); the "
+        "plaintext report deserialisers are only exercised with at least the fixed-size prefix (16 + share bytes), as produced by HPKE "
+        "decryption of a length-checked record",
+        "the Ristretto canonicity oracle is curve25519-dalek's own decoder (third-party, trusted) plus s < 2^255-19 and s even",
+        "epsilon values that are NaN / infinite are outside the documented range: for them a loud rejection is accepted, a silently "
+        "different value is not",
+        "query-string spellings whose acceptance the property does not fix ('+1', '01', ' 1') are only checked for absence of panics",
+    ],
+    shards={"quick": 8, "thorough": 16},
+    min_evaluations={"quick": 1500000, "thorough": 50000000},
+    must_see=[("types_exhaustive", 29), ("types_three_byte", 3), ("types_large", 50), ("types_value_side", 22),
+              ("transpose_impls", 60), ("transpose_inverse_pairs", 17), ("writer_reader_layouts", 9), ("query_types", 4),
+              ("exhaustive_strings", 921344), ("transposes_equal_reference", 5000), ("join_split_roundtrips", 5000),
+              ("config_roundtrips", 5000), ("report_bytes_rejected", 1000), ("to_bytes_layout_ok", 48),
+              ("length_errors_reported", 15)],
+)
+
+import routes as _routes  # noqa: E402  (lib/routes.py: source scanner used by C20)
+
+prop(
+    "C20",
+    level="exploration",
+    rule=("route inventory discovered at check time by lib/routes.py (AXUM_PATH constants, .route/.nest/.merge/.layer chains of every "
+          "function returning Router under ipa-core/src/net, server roots from impl IpaHttpServer<Helper|Shard>); cases = discovered "
+          "(server, path template) x request variants (canonical ids/gates/query strings, malformed query ids, gates, query strings, "
+          "over-long values, seeded URL-safe strings, three body kinds) x methods {GET, POST, PUT, DELETE, PATCH}; every case is sent "
+          "(a) through IpaHttpServer::handle_req without the identity extension (with and without a caller-supplied identity header, on "
+          "the TLS and the plain server objects) and (b) over loopback to TestServer with TLS on {no client certificate, + identity "
+          "header of every peer / malformed / other flavour, certificate of helper 1..3 resp. shard 0, + header claiming another peer, "
+          "certificate unknown to the server} and TLS off {no header, header of a peer, malformed header, other flavour's header}; the "
+          "same request with a known client certificate is the existence reference (status other than 404/405); oracle = fixed "
+          "report-collector allow-list, everything else that exists must answer 401 without a verified identity and must not reach the "
+          "request handler; record-stream routes additionally: the stream is filed under the certificate's identity, never under the "
+          "header's (TLS), and under the header's with TLS off; a case is distinct by (server, method, template, variant, identity mode, "
+          "header value) and non-trivial when a response was received and judged"),
+    assumptions=["routes are declared with the repository's idiom (AXUM_PATH constants or literals in .route(..) inside functions returning "
+                 "Router reachable from handlers::mpc_router / shard_router); anything the scanner cannot follow makes the check inconclusive",
+                 "report-collector allow-list (GET /echo, GET /metrics, POST /query, POST /query/:query_id/input, GET /query/:query_id, "
+                 "POST /query/:query_id/kill, GET /query/:query_id/complete on the helper server; GET /echo on the shard server) is part of "
+                 "the oracle: a new public route has to be added to it deliberately",
+                 "TestServer topology: one ring, one shard per helper, the repository's test certificates; HTTP/2 clients (IpaHttpClient)",
+                 "connection errors and timeouts (30 s per request) are reported as inconclusive, never as violations"],
+    shards={"quick": 8, "thorough": 16},
+    min_evaluations={"quick": 2000, "thorough": 20000},
+    must_see=[("routes", 13), ("protected_routes", 6), ("allowed_routes", 8), ("routes_confirmed", 14), ("binding_ok", 10),
+              ("binding_refused_ok", 5), ("status_classes", 20)],
+    watchdog_s={"quick": 600, "thorough": 1800},
+    pre_run=_routes.pre_run,
+)
+
+
+prop(
+    "C07",
+    level="exploration",
+    rule=("cases = operand tuples pushed through the real protocol on three in-memory helpers (one record carries N <= 256 independent lanes): "
+          "every operand pair for every width pair <= 4 bits and all 2^16 pairs of 8-bit operands for integer_add, integer_sat_add (8-bit space "
+          "thorough only), compare_gt, bool_or, bool_and_8_bit (N = 256 lanes) and for integer_sub, compare_geq, integer_sat_sub (one pair per "
+          "record; quick runs a seed-rotated quarter of the 8-bit space, thorough all of it plus every pair of the unequal widths 8x4, 4x8, 8x5, 5x8 …); every (cond, a, b) of 3- and 5-bit select; boundary "
+          "(0, 1, 2, 3, max, max-1, 2^k, 2^k+-1 at middle/top/limb borders, 0x55.., 0xAA..) x boundary, equal operands, pairs summing to exactly "
+          "2^w-1 and 2^w, neighbours and seeded pairs for 16/32/64/128/256 bits incl. y narrower and wider than x where documented; SecureMul and "
+          "the field `or` over Fp31, Fp32BitPrime, Fp61BitPrime, Fp25519, Boolean, Gf2/3/8/9/20/32/40Bit and Boolean vectors of 3..256 lanes with "
+          "{0,1,2,p-1,p-2,seeded}^2; convert_to_fp25519 for 1/8/40/64/100/127-bit inputs (zero, all-ones, boundary, seeded; 256 lanes, PRF chunk 1 "
+          "and 16); eval_dy_prf (N = 1, 16; record counts around the MAC batch size); aggregate_values for 0..40 rows x value widths {1..32} x 14 "
+          "(context, lanes, output type) shapes with column classes (all-max, zero, single, sparse, sum == limit, sum == limit+1, seeded); "
+          "share_known_value / reshare towards H1, H2, H3 / validate_replicated_shares over 9 field types. Contexts: semi-honest, DZKP semi-honest, "
+          "DZKP malicious (proof generated and verified in every run), MAC semi-honest and MAC malicious (prime fields, Gf2, Fp25519), every vector "
+          "width with a BooleanProtocols / FieldSimd impl (1, 3, 5, 8, 16, 20, 32, 64, 256). Oracle per tuple: the three outputs are a consistent "
+          "replicated sharing (H_i.right == H_{i+1}.left, checked by the harness) and open to the plaintext reference computed with 256-bit integer "
+          "arithmetic / u128 modular arithmetic / plain field and curve operations; any Err, panic or quiescence of an honest run is a violation. A "
+          "case is distinct by (circuit, context, lanes, operand widths, operand values) and non-trivial when all three helpers returned Ok and the "
+          "opened value was compared"),
+    assumptions=["operands of the comparisons and of integer_sat_sub respect the documented precondition (excess bits of a wider y are zero); "
+                 "integer_sat_add is exercised up to 32 bits (its step enum documents that limit) and with y no wider than x",
+                 "eval_dy_prf is not evaluated at x = -k (1/0); convert_to_fp25519 inputs are < 2^128 as its debug assertion demands",
+                 "boolean_ops::multiplication::integer_mul is unreachable from the harness (private module, no re-export, no caller) and is not covered",
+                 "non-completion is decided by quiescence under tokio's paused clock (60 virtual seconds), not by wall time",
+                 "plain field arithmetic (checked by C08) is trusted for the Galois-field and Fp25519 reference products"],
+    shards={"quick": 8, "thorough": 16},
+    min_evaluations={"quick": 500000, "thorough": 2000000},
+    must_see=[("ops", 9), ("modes", 5), ("lane_widths", 6), ("fields", 12), ("field_mode_n", 100), ("tuples_integer_add", 100000),
+              ("tuples_compare_gt", 100000), ("tuples_convert_to_fp25519", 2000), ("tuples_eval_dy_prf", 100),
+              ("tuples_aggregate_values", 20000), ("aggregate_rows", 41), ("aggregate_saturated_columns", 1000), ("reshare_ok", 1000),
+              ("share_validation_honest_ok", 10), ("known_value_ok", 100), ("convert_all_ones_inputs", 10)],
+    watchdog_s={"quick": 1800, "thorough": 10800},
 )
